@@ -804,6 +804,7 @@ func runC11(cx *Ctx, r *Report) {
 	r.Explanation = "F1, exhaustive site enumeration over every irismod function (type-checked SSA): ND1 host-clock calls, ND2 unseeded/global randomness, ND3 every range over a map (loop body classified from its SSA: state-touching calls, early value returns, values carried out of the loop and whether slices are sorted before use), ND4 goroutines/select/channel operations, ND5 FMA-fusable float expressions (x*y±z on floats without an explicit conversion), ND6 run-time writes to package-level variables and keeper-held maps, ND7 environment/file/network access. A site is a violation when it is reachable in the call graph (static calls, interface invokes resolved to irismod implementers, function values by signature, closures) from a msg/abci/genesis/callback/ante/hook/upgrade entry point and its value reaches more than a logger, or when a package-level variable initialised from such a source is read on such a path. Decides the structural part of determinism (no nondeterministic source feeds consensus code); it does not execute anything and does not judge third-party code."
 	r.Assumptions = []string{"third-party dependencies (Cosmos SDK, CometBFT, store iteration order) are deterministic", "floating-point results are identical across replicas except where the Go spec permits fusing (ND5)", "query handlers are not consensus paths"}
 	reach := cx.consensusReach()
+	processLivedCx = cx
 	kc := keyCounter{}
 	// ND1/ND2/ND7
 	sites := cx.ndCallSites()
@@ -1046,9 +1047,12 @@ func rootIsParamOrRecv(v ssa.Value) bool {
 	for {
 		switch x := v.(type) {
 		case *ssa.Parameter:
-			// only receivers named like keepers hold process-local state
+			// only receivers that outlive the call hold process-local state: keepers, modules,
+			// servers, and types kept in package variables or in fields of those. A small
+			// struct assembled inside the handler (a collector whose method is handed to an
+			// iterator) lives for one call.
 			if x.Parent().Signature.Recv() != nil && x.Parent().Params[0] == x {
-				return true
+				return processLivedType(x.Type())
 			}
 			return false
 		case *ssa.FieldAddr:
@@ -1411,3 +1415,89 @@ func inLoop(b *ssa.BasicBlock) bool {
 }
 
 func (cx *Ctx) c11Controls(r *Report) {}
+
+// processLivedType: values of the (named struct) type can outlive one handler call.
+var processLivedCx *Ctx
+var processLivedCache = map[*types.Named]bool{}
+
+func processLivedType(t types.Type) bool {
+	n := namedOf(t)
+	if n == nil || n.Obj().Pkg() == nil {
+		return true
+	}
+	if v, ok := processLivedCache[n]; ok {
+		return v
+	}
+	res := func() bool {
+		name := n.Obj().Name()
+		if isKeeperStruct(n) || strings.Contains(name, "Keeper") || strings.Contains(name, "AppModule") || strings.Contains(name, "Server") || strings.Contains(name, "Hook") || strings.Contains(name, "Handler") {
+			return true
+		}
+		cx := processLivedCx
+		if cx == nil {
+			return true
+		}
+		mentions := func(tt types.Type) bool {
+			found := false
+			var walk func(x types.Type, d int)
+			walk = func(x types.Type, d int) {
+				if x == nil || d > 4 || found {
+					return
+				}
+				if nn := namedOf(x); nn == n {
+					found = true
+					return
+				}
+				switch y := x.(type) {
+				case *types.Pointer:
+					walk(y.Elem(), d+1)
+				case *types.Slice:
+					walk(y.Elem(), d+1)
+				case *types.Map:
+					walk(y.Key(), d+1)
+					walk(y.Elem(), d+1)
+				case *types.Array:
+					walk(y.Elem(), d+1)
+				}
+			}
+			walk(tt, 0)
+			return found
+		}
+		for _, pk := range cx.P.Pkgs {
+			if !strings.HasPrefix(pk.PkgPath, modPrefix) || pk.Types == nil {
+				continue
+			}
+			sc := pk.Types.Scope()
+			for _, nm := range sc.Names() {
+				switch o := sc.Lookup(nm).(type) {
+				case *types.Var:
+					if mentions(o.Type()) {
+						return true // kept in a package variable
+					}
+				case *types.TypeName:
+					st, ok := o.Type().Underlying().(*types.Struct)
+					if !ok {
+						continue
+					}
+					on, _ := o.Type().(*types.Named)
+					if on == nil || on == n || !processLivedTypeShallow(on) {
+						continue
+					}
+					for i := 0; i < st.NumFields(); i++ {
+						if mentions(st.Field(i).Type()) {
+							return true // kept in a field of a keeper / module
+						}
+					}
+				}
+			}
+		}
+		return false
+	}()
+	processLivedCache[n] = res
+	return res
+}
+
+func processLivedTypeShallow(n *types.Named) bool {
+	name := n.Obj().Name()
+	return isKeeperStruct(n) || strings.Contains(name, "Keeper") || strings.Contains(name, "AppModule") || strings.Contains(name, "Server") || strings.Contains(name, "Hook")
+}
